@@ -44,6 +44,7 @@ def run(ck):
               nontrivial=lambda c: sum(1 for o in c[1] if o[0] == 0 and len(o[1]) > 0) >= 2,
               sig=lambda c, e, o: "buffered-conn-order")
     session_streams(ck)
+    two_sessions(ck)
     return ck.finish(rule="(1) Write/Flush scripts on buffered.Conn over a scripted socket: write sizes 0..64, around the 8 KiB buffer "
                           "(+-80), up to 3x the buffer, flush rates 1..1000/s so that both limiter verdicts occur; "
                           "non-trivial = at least two non-empty writes. (2) a real playing RTSP session (TCP interleaved, every 4th "
@@ -52,7 +53,11 @@ def run(ck):
                           "schedules: media parked between frame prefix and payload then a request; responder parked inside the socket "
                           "write of its response/Flush then a packet; random interleavings of publish / request / step-media / step-responder "
                           "(every socket write and the prefix/payload gap are schedule points); the proved oracle ok_sink is applied to the "
-                          "client's bytes against the intended frames and responses; non-trivial = at least one packet and one request",
+                          "client's bytes against the intended frames and responses; non-trivial = at least one packet and one request. "
+                          "(3) two or three RTSP/TCP viewers of one stream with different channel maps on their own scripted connections, one "
+                          "P: viewer 0 is parked inside the socket write of a frame prefix (queue emptied, flush token available: the socket "
+                          "reads the caller's slice) or between its halves while the others deliver frames of other lengths and channels, then "
+                          "it continues; ok_sink per connection against that connection's own frames and keep-alive answers",
                      trusted=["net.Conn.Write writes the whole slice or returns an error (its contract)",
                               "the rate limiter's verdict is an arbitrary boolean per call (the theorem quantifies over it)",
                               "schedule controller harness/sched: a goroutine parked at a point or blocked on the lock does not run",
@@ -147,3 +152,53 @@ def session_streams(ck):
     if forced.get(0, 0) < 3 or forced.get(1, 0) < 3:
         ck.broken.append(Broken("C13 session schedules no longer force the two writers to meet (prefix: %d, response: %d)"
                                 % (forced.get(0, 0), forced.get(1, 0))))
+
+
+# ---------------------------------------------------------------- two sessions: each connection carries only its own messages
+import os, sys
+sys.path.insert(0, os.path.dirname(__file__))
+import trgen as T
+
+def gen_two(rng):
+    nv = rng.choice([2, 2, 3])
+    maps = [[0, 1, 2, 3]] + [rng.choice([[4, 5, 6, 7], [2, 3, 0, 1], [8, 9, 10, 11], [0, 1, 2, 3], [1, 0, 3, 2]]) for _ in range(nv - 1)]
+    if rng.random() < 0.3:
+        maps[0] = rng.choice([[6, 7, 8, 9], [2, 3, 0, 1]])
+    pkts = T.gen_packets(rng, rng.randint(6, 12), False, max_small=600)
+    k0 = rng.randint(0, 3)
+    return [[[p[0], p[1]] for p in pkts], maps, [k0, rng.randint(2, 5), rng.choice([1, 1, 2])]]
+
+def two_sessions(ck):
+    rng = ck.rng
+    n = 500 if ck.thorough else 40
+    cases = [gen_two(rng) for _ in range(n)]
+    obs = ck.stream("two-sessions", cases, None, "C13_two", None, compare=False,
+                    nontrivial=lambda c: len(c[1]) >= 2, sig=lambda c, e, o: "two-sessions")
+    if len(obs) != len(cases):
+        return
+    lines, idx, parked = [], [], 0
+    for i, (c, o) in enumerate(zip(cases, obs)):
+        v = vparse(o)
+        if not (isinstance(v, list) and len(v) == 2 and isinstance(v[0], list) and len(v[0]) == len(c[1])):
+            ck.fail("two-sessions", "two-sessions-harness", vs(c), observed=o, note="harness could not run the case")
+            continue
+        parked += v[1] == b""
+        for k, (m, conn) in enumerate(zip(c[1], v[0])):
+            frames = [[b"$" + bytes([m[p[0]], len(p[1]) >> 8, len(p[1]) & 255]), p[1]] for p in c[0] if m[p[0]] >= 0]
+            lines.append("((%s %s) (%s))" % (vs(frames), vs([[r] for r in conn[1]]), vs(conn[0])))
+            idx.append((i, k))
+    try:
+        oks = run_driver(ck.prop, "C13_sink_ok", lines)
+    except Broken as b:
+        ck.broken.append(b)
+        return
+    bad = set()
+    for (i, k), ok in zip(idx, oks):
+        ck.count(1, "two%d-%d" % (i, k))
+        if ok != "1" and i not in bad:
+            bad.add(i)
+            ck.fail("two-sessions", "two-sessions-torn", vs(cases[i]), observed=obs[i],
+                    note="connection %d does not carry exactly its own complete frames and responses" % k)
+    ck.extra["two_sessions_parked_in_prefix_write"] = parked
+    if parked < len(cases) // 2:
+        ck.broken.append(Broken("C13 two-sessions: the viewer was parked inside a frame's socket write in only %d of %d cases" % (parked, len(cases))))
